@@ -1,6 +1,7 @@
 import MdkVerif.Model.Client
 import MdkVerif.Proofs.Client
 import MdkVerif.Proofs.RestartSim
+import MdkVerif.Generated
 /-
   C11 — Restarting on persistent storage is invisible.
   In the model a restart drops the in-memory snapshot manager and re-hydrates it from the stored
@@ -201,5 +202,105 @@ example : (run by0p raceOps).2 = [.commit, .commit, .commit, .commit] ∧ (run b
 example : (run by0p raceOps).2 = (run by0p (strip raceOps)).2 := (restart_invisible_sharp by0p raceOps (by decide)).1
 /-- … and the witness of the finding is exactly a stale win -/
 example : noStaleWin by0p by0p [.deliver cA 0, .restart, .deliver cB 0] = false := by decide
+
+/-! ## tie to the source: what an `MDK` instance keeps in memory, and what hydration brings back
+
+  The facts are re-extracted from /repo on every run (`tools/gen_model.py` → `Generated.lean`); the theorems below
+  are closed `decide`s over them, so a new field of `MDK`, a new lock / cell / static anywhere in the shipped code of
+  mdk-core, mdk-storage-traits or mdk-sqlite-storage, or a change of what hydration rebuilds breaks an obligation. -/
+
+/-- what a field of `MDK` is for a restart -/
+inductive FieldRole where
+  | constant       -- fixed by the code or handed in again by the application when it reopens (configuration)
+  | database       -- the handle on the database (what "persistent" means) and the stateless crypto provider
+  | callback       -- the application's callback object, handed in again on reopen; no library state
+  | volatileState  -- library state that lives in memory only
+  deriving DecidableEq, Repr
+
+def mdkFieldRole : String → Option FieldRole
+  | "ciphersuite" => some .constant
+  | "extensions" => some .constant
+  | "config" => some .constant
+  | "provider" => some .database
+  | "callback" => some .callback
+  | "epoch_snapshots" => some .volatileState
+  | _ => none
+
+/-- every field of `pub struct MDK` is accounted for (a new field — a cache, say — has no role and breaks this) -/
+theorem mdk_fields_all_classified : Generated.mdkFields.all (fun f => (mdkFieldRole f.1).isSome) = true := by decide
+
+/-- the ONLY state-carrying in-memory field is the snapshot manager -/
+theorem snapshot_manager_only_volatile_state :
+    Generated.mdkFields.filter (fun f => mdkFieldRole f.1 == some .volatileState) =
+      [("epoch_snapshots", "Arc<EpochSnapshotManager>")] := by decide
+
+/-- the provider is the crypto provider and the storage, the SQLite storage is its connection and nothing else -/
+theorem provider_and_storage_hold_no_cache :
+    Generated.mdkProviderFields = [("crypto", "RustCrypto"), ("storage", "Storage")] ∧
+    Generated.sqliteStorageFields = [("connection", "Arc<Mutex<Connection>>")] := by decide
+
+/-- every lock, cell, lazy value, atomic and static of the shipped source: the manager's mutex, the connection's
+    mutex, and the process-wide key-generation lock of the keyring (a `Mutex<()>`: it guards, it stores nothing) -/
+theorem no_other_interior_mutability :
+    Generated.interiorMutabilitySites =
+      [("mdk-core/src/epoch_snapshots.rs", "Mutex"),
+       ("mdk-sqlite-storage/src/keyring.rs", "Mutex"), ("mdk-sqlite-storage/src/keyring.rs", "OnceLock"),
+       ("mdk-sqlite-storage/src/keyring.rs", "static KEY_GENERATION_LOCK:OnceLock<Mutex<()>>"),
+       ("mdk-sqlite-storage/src/lib.rs", "Mutex")] := by decide
+
+/-- the manager is the queue per group plus the set of groups hydrated already; every public method that looks at
+    the queue hydrates first — so hydrating at the restart (the model) or at first use (the code) is the same -/
+theorem manager_state_and_lazy_hydration :
+    Generated.snapshotManagerFields = [("inner", "Mutex<EpochSnapshotManagerInner>"), ("retention_count", "usize")] ∧
+    Generated.snapshotManagerInnerFields =
+      [("snapshots", "HashMap<GroupId,VecDeque<EpochSnapshot>>"), ("hydrated_groups", "HashSet<GroupId>")] ∧
+    Generated.managerMethods.filter (· != "new") = Generated.managerMethodsHydrating := by decide
+
+/-- the model's `Snap` field that stands for a field of `EpochSnapshot` (`group_id`: the model has one group;
+    `created_at`: an `Instant` nothing reads, `created_at_never_read`) -/
+def snapFieldOf : String → Option String
+  | "epoch" => some "epoch"
+  | "applied_commit_id" => some "commit"
+  | "applied_commit_ts" => some "ts"
+  | "snapshot_name" => some "saved"       -- the name of the stored copy of the group state
+  | _ => none
+
+/-- a hydrated entry's field is a placeholder, not read back from the stored snapshot's name -/
+def isPlaceholder (expr : String) : Bool := expr == "0" || expr == "Instant::now()"
+
+/-- the stored name carries group id, epoch and commit id (`create_snapshot`), hydration reads exactly those back
+    (`parse_snapshot_name`) and fills the rest with placeholders -/
+theorem hydration_as_modelled :
+    Generated.snapshotNameFormat = "snap_{}_{}_{}" ∧
+    Generated.snapshotNameArgs = ["hex::encode(group_id.as_slice())", "current_epoch", "commit_id.to_hex()"] ∧
+    Generated.createdEntry =
+      [("group_id", "group_id.clone()"), ("epoch", "current_epoch"), ("applied_commit_id", "*commit_id"),
+       ("applied_commit_ts", "commit_ts"), ("created_at", "Instant::now()"), ("snapshot_name", "snapshot_name.clone()")] ∧
+    Generated.hydratedLocals =
+      [("parts", "snapshot_name.split('_').collect()"), ("epoch", "parts[2].parse().ok()?"),
+       ("commit_id", "EventId::parse(parts[3]).ok()?")] ∧
+    Generated.hydratedEntry =
+      [("group_id", "group_id.clone()"), ("epoch", "epoch"), ("applied_commit_id", "commit_id"),
+       ("applied_commit_ts", "0"), ("created_at", "Instant::now()"), ("snapshot_name", "snapshot_name.to_string()")] ∧
+    Generated.hydratedEntry.map (·.1) = Generated.epochSnapshotFields.map (·.1) := by decide
+
+theorem created_at_never_read : Generated.epochSnapshotCreatedAtReads = 0 := by decide
+
+/-- **the model's `restart` erases exactly the field hydration cannot recover**: of the fields of `EpochSnapshot`
+    the model tracks, the placeholders of a hydrated entry are `applied_commit_ts` ↦ `ts` and nothing else … -/
+theorem hydration_loses_exactly_ts :
+    (Generated.hydratedEntry.filter (fun f => isPlaceholder f.2)).filterMap (fun f => snapFieldOf f.1) = ["ts"] ∧
+    (Generated.hydratedEntry.filter (fun f => !isPlaceholder f.2)).filterMap (fun f => snapFieldOf f.1) = ["epoch", "commit", "saved"] ∧
+    Generated.hydratedEntry.lookup "applied_commit_ts" = some "0" := by decide
+
+/-- … and that is what `restart` does to a persistent client: every entry keeps epoch, commit and saved state, in
+    order; every timestamp becomes 0; nothing else of the client changes (`restart_only_forgets_timestamps`) -/
+theorem restart_erases_exactly_ts (c : Cl) (hp : c.persistent = true) :
+    (restart c).1.mgr.map (fun s => (s.epoch, s.commit, s.saved)) = c.mgr.map (fun s => (s.epoch, s.commit, s.saved)) ∧
+    (∀ s ∈ (restart c).1.mgr, s.ts = 0) ∧ (restart c).1 = { c with mgr := (restart c).1.mgr } := by
+  unfold restart
+  simp only [hp, if_true, List.map_map, List.mem_map]
+  refine ⟨rfl, ?_, trivial⟩
+  rintro s ⟨t, _, rfl⟩; rfl
 
 end MdkVerif.Props.C11
